@@ -65,6 +65,25 @@ class Trace:
     def crashed(self, actor):
         return self.actor_task(actor).state == "panicked"
 
+    def kill_requested(self, actor):
+        """API-level: index of the first kill() call on `actor` (client op or hook action), or None.
+        Deliberately not derived from the control channel's traffic, which is a mechanism."""
+        return self.first(lambda e: (e["ev"] == "op_start" and e["op"][0] == "kill" and e["op"][1] == actor)
+                          or (e["ev"] == "kill_returned" and e.get("target") == actor))
+
+    def kill_returned(self, actor):
+        """API-level: index at which the first kill() on `actor` had returned"""
+        return self.first(lambda e: (e["ev"] == "op_done" and e["op"][0] == "kill" and e["op"][1] == actor)
+                          or (e["ev"] == "kill_returned" and e.get("target") == actor))
+
+    def stop_returned_ok(self, actor):
+        return self.first(lambda e: e["ev"] == "op_done" and e["op"][0] == "stop" and e["op"][1] == actor and str(e["result"]).startswith("Ok"))
+
+    def stop_requested(self, actor):
+        """API-level: index of the first stop() call on `actor`, or None"""
+        return self.first(lambda e: (e["ev"] == "op_start" and e["op"][0] == "stop" and e["op"][1] == actor)
+                          or (e["ev"] == "stop_returned" and e.get("target") == actor))
+
     def term_consumed(self, actor):
         return self.first(lambda e: e["ev"] == "taken" and e["chan"] == "term:" + actor)
 
@@ -137,11 +156,11 @@ def mon_c01(tr, actor="A"):
     # started, not killed, not crashed  =>  handled exactly once, before on_stop
     st, res = tr.actor_result(actor)
     started = bool(tr.hook(actor, "on_start", "hook_exit")) and "Ok" in str(tr.hook(actor, "on_start", "hook_exit")[0][1]["out"])
-    killed = tr.term_consumed(actor) is not None or any(e["ev"] == "kill_returned" for e in tr.ev) or any(
-        e["ev"] == "accepted" and e["chan"] == "term:" + actor for e in tr.ev)
+    killed = tr.kill_requested(actor) is not None
     failed_run = any(e["ev"] == "hook_exit" and e["hook"] == "on_run" and "Err" in str(e["out"]) for e in tr.ev)
     if started and not killed and not tr.crashed(actor) and not failed_run and st == "finished":
-        stop_i = tr.first(lambda e: e["ev"] == "accepted" and e["chan"] == "mailbox:" + actor and e["what"] == "stop")
+        # "accepted before a graceful stop() was requested": the call, not the marker's arrival
+        stop_i = tr.stop_requested(actor)
         onstop = tr.hook(actor, "on_stop")
         ex.check("C01", len(onstop) == 1, "actor ended without kill/crash but on_stop ran %d times" % len(onstop))
         onstop_i = onstop[0][0] if onstop else len(tr.ev)
@@ -187,7 +206,7 @@ def mon_c02(tr, actor="A"):
     # stop() takes its place in the same order
     stops = [o for o in tr.ops().values() if o["op"][0] == "stop" and o["op"][1] == actor]
     st, _ = tr.actor_result(actor)
-    killed = any(e["ev"] == "accepted" and e["chan"] == "term:" + actor for e in tr.ev)
+    killed = tr.kill_requested(actor) is not None
     onstop = tr.hook(actor, "on_stop")
     if stops and not killed and not tr.crashed(actor):
         s0 = min(stops, key=lambda o: o["start"])
@@ -257,7 +276,8 @@ def mon_c04(tr, actor="A"):
         ex.check("C04", not later_polls, "hook bodies %s were polled after on_stop started" % later_polls)
     t = tr.actor_task(actor)
     # when must on_stop have run?
-    consumed = tr.term_consumed(actor)
+    # kill() had returned (API level) - not "something was taken from the control channel"
+    consumed = tr.kill_returned(actor)
     run_err = any(e["ev"] == "hook_exit" and e["hook"] == "on_run" and "Err" in str(e["out"]) for _, e in seq)
     if t.state == "finished":
         if not start_ok:
@@ -266,7 +286,7 @@ def mon_c04(tr, actor="A"):
             ex.check("C04", len(stops) == 1, "actor ended (result %s) without running on_stop exactly once" % tr.w.describe(t.result))
             k = stops[0][1]["killed"]
             ex.check("C04", k == (consumed is not None and consumed < stops[0][0] and not run_err),
-                     "on_stop(killed=%s) but a kill signal was %sconsumed" % (k, "" if consumed is not None else "not "))
+                     "on_stop(killed=%s) but kill() had %sreturned before on_stop began" % (k, "" if (consumed is not None and consumed < stops[0][0]) else "not "))
     if t.state == "panicked":
         p = tr.first(lambda e: e["ev"] == "task_panicked" and e["task"] == t.name)
         # no on_stop *after* the panic (the panic may be in on_stop itself)
@@ -347,6 +367,11 @@ def mon_c05_panic(tr, actor="A"):
             pass
     if getattr(tr.w.actors[actor]["script"], "_expect_panic", False):
         ex.check("C05", t.state == "panicked", "a hook panicked but the JoinHandle resolved normally: %s" % tr.w.describe(t.result))
+    # trace-based: any user hook of this actor that panicked (whichever schedule led there)
+    hp = [e for e in tr.ev if e["ev"] == "hook_panic" and e.get("actor") == actor]
+    if hp:
+        ex.check("C05", t.state == "panicked", "%s panicked but the JoinHandle resolved with a normal result: %s" % (
+            hp[0]["hook"], tr.w.describe(t.result) if t.state == "finished" else t.state))
 
 
 def mon_c06(tr, actor="A"):
@@ -354,13 +379,23 @@ def mon_c06(tr, actor="A"):
     kills = [(i, e) for i, e in enumerate(tr.ev) if e["ev"] == "op_done" and e["op"][0] == "kill" and e["op"][1] == actor]
     for i, e in kills:
         ex.check("C06", str(e["result"]).startswith("Ok"), "kill() returned %s" % e["result"])
-    eff = tr.first(lambda e: e["ev"] == "accepted" and e["chan"] == "term:" + actor)
+    # "once it has returned": the moment kill() returned (API level; which channel carries what is
+    # the implementation's business)
+    eff = tr.kill_returned(actor)
     if eff is None:
         return
     t = tr.actor_task(actor)
     onstop = tr.hook(actor, "on_stop")
-    already_stopping = bool(onstop) and onstop[0][0] < eff
-    if already_stopping or t.state == "panicked":
+    # "an actor that had not already begun stopping": on_stop entered, the task over, a start-up or
+    # on_run failure, or the graceful-stop marker already consumed before kill() returned
+    already_stopping = (bool(onstop) and onstop[0][0] < eff) or any(
+        (e["ev"] in ("task_finished", "task_panicked") and e.get("task") == t.name)
+        or (e["ev"] == "hook_exit" and e.get("actor") == actor and e["hook"] in ("on_start", "on_run") and "Err" in str(e["out"]))
+        or (e["ev"] == "taken" and e["chan"] == "mailbox:" + actor and e.get("what") == "stop")
+        for e in tr.ev[:eff])
+    start_failed = any(e["ev"] == "hook_exit" and e.get("actor") == actor and e["hook"] == "on_start" and "Err" in str(e["out"]) for e in tr.ev)
+    run_failed = any(e["ev"] == "hook_exit" and e.get("actor") == actor and e["hook"] == "on_run" and "Err" in str(e["out"]) for e in tr.ev)
+    if already_stopping or t.state == "panicked" or start_failed or run_failed:
         return
     started_after = [(i, e) for i, e in tr.handled(actor) if i > eff]
     ex.check("C06", len(started_after) <= 1, "%d handlers started after kill() had returned (messages %s)" % (len(started_after), [e["msg"] for _, e in started_after]))
@@ -387,10 +422,13 @@ def mon_c07(tr, actor="A", expect_alive=None):
     kill_acc = tr.first(lambda e: e["ev"] == "accepted" and e["chan"] == "term:" + actor)
     run_err = any(e["ev"] == "hook_exit" and e["hook"] == "on_run" and e["actor"] == actor and "Err" in str(e["out"]) for e in tr.ev)
     start_bad = any(e["ev"] == "hook_exit" and e["hook"] == "on_start" and e["actor"] == actor and "Err" in str(e["out"]) for e in tr.ev)
-    cause = stop_acc is not None or kill_acc is not None or run_err or start_bad or t.state == "panicked"
+    # causes after which the actor MUST end (a stop()/kill() that returned Ok, a failure) ...
+    cause_must = tr.stop_returned_ok(actor) is not None or tr.kill_returned(actor) is not None or run_err or start_bad or t.state == "panicked"
+    # ... and anything that MAY legitimately have ended it (a stop()/kill() merely started)
+    cause = cause_must or stop_acc is not None or kill_acc is not None or tr.stop_requested(actor) is not None or tr.kill_requested(actor) is not None
     if t.state == "running":
         ex.check("C07", strong > 0, "no strong reference is left (mailbox senders=0) but the actor has not ended")
-        ex.check("C07", not cause, "a termination cause occurred but the actor is still running at quiescence")
+        ex.check("C07", not cause_must, "a termination cause occurred but the actor is still running at quiescence")
     else:
         if t.state == "finished" and not cause:
             ex.check("C07", strong == 0 or a["term"].tx_count == 0, "actor ended on its own: %d strong references still exist and no stop/kill/error occurred" % strong)
